@@ -197,6 +197,59 @@ fn c15_row_and_sample_id_bytes() {
     }
 }
 
+// RowNamespaceDataId / NamespaceDataId: bytes round trip for every valid id (any valid namespace); decode accepts a buffer
+// exactly when it has the right length, a non-zero height and a valid namespace
+#[kani::proof]
+#[kani::unwind(48)]
+fn c15_namespace_ids_bytes() {
+    let nsb: [u8; NS_SIZE] = kani::any();
+    kani::assume(valid_raw(&nsb));
+    let ns = Namespace::from_raw(&nsb).unwrap();
+    let row: u16 = kani::any(); let h: u64 = kani::any();
+    let r = RowNamespaceDataId::new(ns, row, h);
+    assert!(r.is_ok() == (h != 0));
+    let n = NamespaceDataId::new(ns, h);
+    assert!(n.is_ok() == (h != 0));
+    if let (Ok(rid), Ok(nid)) = (r, n) {
+        let mut out = BytesMut::new();
+        rid.encode(&mut out);
+        assert!(out.len() == ROW_NAMESPACE_DATA_ID_SIZE);
+        assert!(RowNamespaceDataId::decode(&out[..]).ok() == Some(rid));
+        assert!(rid.namespace() == ns && rid.row_index() == row && rid.block_height() == h);
+        let mut out2 = BytesMut::new();
+        nid.encode(&mut out2);
+        assert!(out2.len() == NAMESPACE_DATA_ID_SIZE);
+        assert!(NamespaceDataId::decode(&out2[..]).ok() == Some(nid));
+        assert!(nid.namespace() == ns && nid.block_height() == h);
+    }
+}
+
+#[kani::proof]
+#[kani::unwind(48)]
+fn c15_namespace_ids_decode_arbitrary() {
+    let buf: [u8; 44] = kani::any();
+    let n: usize = kani::any();
+    kani::assume(n <= 44);
+    let hh = u64::from_be_bytes([buf[0], buf[1], buf[2], buf[3], buf[4], buf[5], buf[6], buf[7]]);
+    let d = RowNamespaceDataId::decode(&buf[..n]);
+    if n != ROW_NAMESPACE_DATA_ID_SIZE { assert!(d.is_err()); } else {
+        let mut nsb = [0u8; NS_SIZE];
+        let mut i = 0; while i < NS_SIZE { nsb[i] = buf[ROW_ID_SIZE + i]; i += 1; }
+        assert!(d.is_ok() == (hh != 0 && valid_raw(&nsb)));
+    }
+    let d = NamespaceDataId::decode(&buf[..n]);
+    if n != NAMESPACE_DATA_ID_SIZE { assert!(d.is_err()); } else {
+        let mut nsb = [0u8; NS_SIZE];
+        let mut i = 0; while i < NS_SIZE { nsb[i] = buf[EDS_ID_SIZE + i]; i += 1; }
+        assert!(d.is_ok() == (hh != 0 && valid_raw(&nsb)));
+    }
+}
+
+// ---------------------------------------------------------------------------------------------------------------
+// The CID layer of C15 (From<Id> for CidGeneric / TryFrom<CidGeneric> for Id) is NOT claimed: the four harnesses below
+// each exceed 20 minutes of CBMC time on this machine (multihash/cid varint code plus the `e.to_string()` error path).
+// They are kept for reference and are not registered in any check.
+// ---------------------------------------------------------------------------------------------------------------
 // RowId: CID round trip for every valid id
 #[kani::proof]
 #[kani::unwind(18)]
